@@ -270,13 +270,13 @@ func (repo *Repository) GetVerifyOnlyLocatorHashes(ctx context.Context) ([]bitco
 
 func removeDuplicateHashes(hashes []bitcoin.Hash32) []bitcoin.Hash32 {
 	result := make([]bitcoin.Hash32, 0, len(hashes))
-	var previousHash bitcoin.Hash32
-	for i, hash := range hashes {
-		if i != 0 && previousHash.Equal(&hash) {
+	added := make(map[bitcoin.Hash32]bool)
+	for _, hash := range hashes {
+		if added[hash] {
 			continue
 		}
 		result = append(result, hash)
-		previousHash = hash
+		added[hash] = true
 	}
 
 	return result
